@@ -2992,10 +2992,14 @@ class FuncPow(ValueFunc):
             return NULL
         if args.isNull("y"):
             return NULL
-        if args.get("y").isInt() and args.get("x").isInt():
+        if (
+            args.get("y").isInt()
+            and args.get("x").isInt()
+            and args.get("y").value >= 0
+        ):
             x = args.getInt("x").value
             y = args.getInt("y").value
-            return ValueInt(int(math.pow(x, y)))
+            return ValueInt(x ** y)
         else:
             x = args.get("x").asDecimal().value
             y = args.get("y").asDecimal().value
